@@ -58,3 +58,40 @@ Proof.
   cbn [RevBlk.wmop app] in HB. replace (0 + j) with j in HB by lia.
   eexists. split; [|exact HB]. rewrite shift_inj, remove_wm_inj. cbn [map app inj]. rewrite ?map_app. cbn [map app inj]. reflexivity.
 Qed.
+
+(* the extracted generator is the generator of RevGen.v (over RevBlk's op type) -- used to transport RevCost.revolve_work *)
+Lemma tget_g t m l v : tget t m l = Ok v -> RevGen.tget t m l = RevGen.GOk v.
+Proof.
+  unfold tget, RevGen.tget. destruct ((m <? 0) || (l <? 0)); [discriminate|].
+  destruct (nth_error t (Z.to_nat m)) as [row|]; [|discriminate]. destruct (nth_error row (Z.to_nat l)); [|discriminate]. intros H; injection H as <-. reflexivity.
+Qed.
+Lemma map_res_g {A B} (f : A -> res B) (f' : A -> RevGen.gres B) l ys : (forall x y, f x = Ok y -> f' x = RevGen.GOk y) ->
+  map_res f l = Ok ys -> RevGen.map_res f' l = RevGen.GOk ys.
+Proof.
+  intros Hf. revert ys. induction l as [|x l IH]; intros ys H; cbn [map_res RevGen.map_res] in *; [injection H as <-; reflexivity|].
+  destruct (f x) as [y|] eqn:Ex; [|discriminate]. cbn [bind] in H. destruct (map_res f l) as [ys'|]; [|discriminate]. cbn [bind] in H. injection H as <-.
+  rewrite (Hf x y Ex). cbn [RevGen.gbind]. rewrite (IH ys' eq_refl). reflexivity.
+Qed.
+Lemma revolve_g : forall fuel t uf l cm ops, revolve fuel t uf l cm = Ok ops ->
+  exists ops0, RevGen.revolve fuel t uf l cm = RevGen.GOk ops0 /\ ops = map inj ops0.
+Proof.
+  induction fuel as [|f IH]; intros t uf l cm ops H; [discriminate|].
+  cbn [revolve RevGen.revolve] in *.
+  destruct (l =? 0). { injection H as <-. eexists; split; reflexivity. }
+  destruct (cm =? 0); [discriminate|].
+  destruct (l =? 1). { injection H as <-. eexists; split; reflexivity. }
+  destruct (cm =? 1). { injection H as <-. eexists; split; [reflexivity|]. rewrite !map_app, <- cm1_loop_inj. reflexivity. }
+  destruct (map_res _ (zrange 1 l)) as [lm|] eqn:Elm; cbn [bind] in H; [|discriminate].
+  assert (Hf : forall j y, (do x <- tget t (cm - 1) (l - j); do y0 <- tget t cm (j - 1); Ok (j * uf + x + y0)) = Ok y ->
+     RevGen.gbind (RevGen.tget t (cm - 1) (l - j)) (fun x => RevGen.gbind (RevGen.tget t cm (j - 1)) (fun y0 => RevGen.GOk (j * uf + x + y0))) = RevGen.GOk y).
+  { intros j y Hy. destruct (tget t (cm - 1) (l - j)) as [a|] eqn:Ea; [|discriminate]. cbn [bind] in Hy.
+    destruct (tget t cm (j - 1)) as [b|] eqn:Eb; [|discriminate]. cbn [bind] in Hy. injection Hy as <-.
+    rewrite (tget_g _ _ _ _ Ea). cbn [RevGen.gbind]. rewrite (tget_g _ _ _ _ Eb). reflexivity. }
+  change (RevGen.zrange 1 l) with (zrange 1 l).
+  rewrite (map_res_g _ _ _ lm Hf Elm).
+  cbn [RevGen.gbind]. destruct lm as [|y0 lm'] eqn:Elmm; [discriminate|]. rewrite <- Elmm in *. rewrite <- argmin_eq.
+  destruct (revolve f t uf (l - argmin lm) (cm - 1)) as [s1|] eqn:E1; cbn [bind] in H; [|discriminate].
+  destruct (revolve f t uf (argmin lm - 1) cm) as [s2|] eqn:E2; cbn [bind] in H; [|discriminate]. injection H as <-.
+  destruct (IH _ _ _ _ _ E1) as (s10 & -> & ->). destruct (IH _ _ _ _ _ E2) as (s20 & -> & ->). cbn [RevGen.gbind].
+  eexists; split; [reflexivity|]. rewrite shift_inj, remove_wm_inj. cbn [map app inj]. rewrite ?map_app. cbn [map app inj]. reflexivity.
+Qed.
